@@ -1,55 +1,68 @@
-//@@ include contracts/inc_shard_header.rs
-use std::borrow::Cow;
-//@@ include prelude/lossy.rs
-//@@ include prelude/arc.rs
+//@@ include contracts/inc_cmd_header.rs
 verus! {
-//@@ item src/protocol/resp.rs Bytes
-//@@ item src/protocol/resp.rs RespFrame
-
-impl RespFrame {
-    /// ASSUMED CONTRACT (`impl Into<Vec<u8>>` argument): builds an Error frame
-    #[verifier::external_body]
-    pub fn error<T>(msg: T) -> (r: Self) ensures r is Error, { unimplemented!() }
-//@@ unit resp_from_bytes fn src/protocol/resp.rs RespFrame::from_bytes
-    pub fn from_bytes(bytes: Vec<u8>) -> (r: Self)
-        ensures r == RespFrame::BulkString(Some(Arc::new(bytes))),
-//@@ body
-//@@ end
-//@@ unit resp_null_bulk fn src/protocol/resp.rs RespFrame::null_bulk
-    pub fn null_bulk() -> (r: Self)
-        ensures r == RespFrame::BulkString(None),
-//@@ body
-//@@ end
-}
-}
-//@@ include spec/strings.rs
-//@@ include spec/dataset.rs
-//@@ include prelude/engine_model.rs
-verus! {
-/// argument i of the command is a bulk string with these bytes
-pub open spec fn arg(parts: Seq<RespFrame>, i: int) -> Option<Seq<u8>> {
-    if 0 <= i < parts.len() { match parts[i] { RespFrame::BulkString(Some(b)) => Some(b@), _ => None } } else { None }
-}
-pub open spec fn bulk_reply(r: RespFrame) -> Option<Option<Seq<u8>>> {
-    match r { RespFrame::BulkString(Some(b)) => Some(Some(b@)), RespFrame::BulkString(None) => Some(None), _ => None }
-}
 
 //@@ unit handle_getset fn src/storage/commands/strings.rs handle_getset
 //@@   params drop "storage: &Arc<StorageEngine>" add "storage: &mut EngineModel"
 pub fn handle_getset(storage: &mut EngineModel, db: usize, parts: &[RespFrame]) -> (r: Result<RespFrame>)
     ensures
-        // bad arity / argument shape: an error reply, dataset untouched
-        (parts@.len() != 3 || arg(parts@, 1) is None || arg(parts@, 2) is None) ==> (r matches Ok(f) && f is Error) && final(storage).ds@ == old(storage).ds@,
+        (parts@.len() != 3 || arg(parts@, 1) is None || arg(parts@, 2) is None) ==> cmd_refused(r, old(storage).ds@, final(storage).ds@),
         parts@.len() == 3 && arg(parts@, 1) is Some && arg(parts@, 2) is Some ==> ({
             let k = arg(parts@, 1)->Some_0; let v = arg(parts@, 2)->Some_0;
             match ds_get(old(storage).ds@, db as int, k) {
-                // refused (wrong type): the dataset is exactly as it was
+                // refused (wrong type): no success reply and the dataset is exactly as it was
                 Some(DV::List(_)) | Some(DV::Set(_)) | Some(DV::Hash(_)) | Some(DV::ZSet) | Some(DV::Stream) => !(r matches Ok(f) && !(f is Error)) && final(storage).ds@ == old(storage).ds@,
                 // string or absent: old value (or nil) returned, new value stored
-                Some(DV::Str(b)) => r is Err || ((r matches Ok(f) && bulk_reply(f) == Some(Some(b))) && final(storage).ds@ == old(storage).ds@.insert((db as int, k), DV::Str(v))),
-                None => r is Err || ((r matches Ok(f) && bulk_reply(f) == Some(None::<Seq<u8>>)) && final(storage).ds@ == old(storage).ds@.insert((db as int, k), DV::Str(v))),
+                Some(DV::Str(b)) => r is Err || cmd_ok(r, final(storage).ds@, (RV::Bulk(Some(b)), old(storage).ds@.insert((db as int, k), DV::Str(v)))),
+                None => r is Err || cmd_ok(r, final(storage).ds@, (RV::Bulk(None), old(storage).ds@.insert((db as int, k), DV::Str(v)))),
             }
         }),
+//@@ body
+//@@ end
+
+//@@ unit handle_append fn src/storage/commands/strings.rs handle_append
+//@@   params drop "storage: &Arc<StorageEngine>" add "storage: &mut EngineModel"
+//@@   rewrite R3
+pub fn handle_append(storage: &mut EngineModel, db: usize, parts: &[RespFrame]) -> (r: Result<RespFrame>)
+    ensures
+        (parts@.len() != 3 || arg(parts@, 1) is None || arg(parts@, 2) is None) ==> cmd_refused(r, old(storage).ds@, final(storage).ds@),
+        parts@.len() == 3 && arg(parts@, 1) is Some && arg(parts@, 2) is Some ==>
+            cmd_ok(r, final(storage).ds@, spec_append(old(storage).ds@, db as int, arg(parts@, 1)->Some_0, arg(parts@, 2)->Some_0)),
+//@@ body
+//@@ end
+
+//@@ unit handle_strlen fn src/storage/commands/strings.rs handle_strlen
+//@@   params drop "storage: &Arc<StorageEngine>" add "storage: &mut EngineModel"
+//@@   rewrite R3
+pub fn handle_strlen(storage: &mut EngineModel, db: usize, parts: &[RespFrame]) -> (r: Result<RespFrame>)
+    ensures
+        (parts@.len() != 2 || arg(parts@, 1) is None) ==> cmd_refused(r, old(storage).ds@, final(storage).ds@),
+        parts@.len() == 2 && arg(parts@, 1) is Some ==> cmd_ok(r, final(storage).ds@, spec_strlen(old(storage).ds@, db as int, arg(parts@, 1)->Some_0)),
+//@@ body
+//@@ end
+
+//@@ unit handle_getrange fn src/storage/commands/strings.rs handle_getrange
+//@@   params drop "storage: &Arc<StorageEngine>" add "storage: &mut EngineModel"
+//@@   rewrite R3
+//@@   rewrite R1
+//@@   rewrite RCALL parse "String::from_utf8_lossy(bytes)" verif_cow_parse
+pub fn handle_getrange(storage: &mut EngineModel, db: usize, parts: &[RespFrame]) -> (r: Result<RespFrame>)
+    ensures
+        (parts@.len() != 4 || arg(parts@, 1) is None || num_arg::<isize>(parts@, 2) is None || num_arg::<isize>(parts@, 3) is None) ==> cmd_refused(r, old(storage).ds@, final(storage).ds@),
+        parts@.len() == 4 && arg(parts@, 1) is Some && num_arg::<isize>(parts@, 2) is Some && num_arg::<isize>(parts@, 3) is Some ==>
+            cmd_ok(r, final(storage).ds@, spec_getrange_cmd(old(storage).ds@, db as int, arg(parts@, 1)->Some_0, num_arg::<isize>(parts@, 2)->Some_0 as int, num_arg::<isize>(parts@, 3)->Some_0 as int)),
+//@@ body
+//@@ end
+
+//@@ unit handle_setrange fn src/storage/commands/strings.rs handle_setrange
+//@@   params drop "storage: &Arc<StorageEngine>" add "storage: &mut EngineModel"
+//@@   rewrite R3
+//@@   rewrite R1
+//@@   rewrite RCALL parse "String::from_utf8_lossy(bytes)" verif_cow_parse
+pub fn handle_setrange(storage: &mut EngineModel, db: usize, parts: &[RespFrame]) -> (r: Result<RespFrame>)
+    ensures
+        (parts@.len() != 4 || arg(parts@, 1) is None || num_arg::<usize>(parts@, 2) is None || arg(parts@, 3) is None) ==> cmd_refused(r, old(storage).ds@, final(storage).ds@),
+        parts@.len() == 4 && arg(parts@, 1) is Some && num_arg::<usize>(parts@, 2) is Some && arg(parts@, 3) is Some ==>
+            cmd_ok(r, final(storage).ds@, spec_setrange_cmd(old(storage).ds@, db as int, arg(parts@, 1)->Some_0, num_arg::<usize>(parts@, 2)->Some_0 as int, arg(parts@, 3)->Some_0)),
 //@@ body
 //@@ end
 
